@@ -26,6 +26,12 @@ class Png(bytes):
         self.size = size
         return self
 
+    def __deepcopy__(self, memo):
+        return self  # immutable payload (fontTools deep-copies strike templates that reach it)
+
+    def __copy__(self):
+        return self
+
 
 class G:
     def __init__(self, gid, png, name):
@@ -179,3 +185,125 @@ def jobs(tier, prop="C07"):
         for perm in perms:
             js.append(Job(f"cbdt_runs[n={n},order={perm}]", job_cbdt, n=n, perm=perm))
     return js
+
+
+# ------------------------------------------------------------------ glue_together._copy_cbdt
+
+
+class TargetFont(dict):
+    """Target font stub: concrete glyph names, SYMBOLIC glyph ids."""
+
+    def __init__(self, names, gid):
+        super().__init__()
+        self._names, self._gid = names, gid
+
+    def getGlyphOrder(self):
+        return list(self._names)
+
+    def getGlyphID(self, name):
+        return self._gid[name]
+
+
+def _donor(n):
+    """A donor font whose CBDT/CBLC were built by the real make_cbdt_table (concrete gids 1..n)."""
+    cfg = FontConfig()._replace(color_format="cbdt", bitmap_resolution=128)
+    font = Font()
+    glyphs = [G(i + 1, Png(LENS[i], size=(100 + 7 * i, 128)), f"f{i}.png") for i in range(n)]
+    BT.make_cbdt_table(cfg, font, glyphs)
+    return font, glyphs
+
+
+def replay_copy_cbdt(inp):
+    from nanoemoji import glue_together as GT
+
+    n = inp["n"]
+    donor, glyphs = _donor(n)
+    names = [f"glyph{i + 1:05d}" for i in range(n)]
+    gids = [int(inp[f"tg{i}"]) for i in range(n)]
+    if len(set(gids)) != n:
+        return None
+    target = TargetFont(names + ["zz"], dict(zip(names, gids)))
+    try:
+        GT._copy_cbdt(target, donor)
+    except Exception as e:
+        return {"raised": repr(e)}
+    order = sorted(range(n), key=lambda i: gids[i])
+    runs, cur = [], [order[0]]
+    for i in order[1:]:
+        if gids[i] == gids[cur[-1]] + 1:
+            cur.append(i)
+        else:
+            runs.append(cur)
+            cur = [i]
+    runs.append(cur)
+    strikes = target["CBLC"].strikes
+    bad = []
+    if [list(s.indexSubTables[0].names) for s in strikes] != [[names[i] for i in run] for run in runs]:
+        bad.append({"strike names": [list(s.indexSubTables[0].names) for s in strikes], "expected runs": [[names[i] for i in run] for run in runs]})
+    if len({id(s.bitmapSizeTable) for s in strikes}) != len(strikes) or len({id(s.indexSubTables[0]) for s in strikes}) != len(strikes):
+        bad.append({"aliasing": "strikes share one bitmapSizeTable/index subtable object; the compiled records would all describe the last run"})
+    off = BT.CBDT_HEADER_SIZE
+    for s, data in zip(strikes, target["CBDT"].strikeData):
+        for nm, (a, b) in zip(s.indexSubTables[0].names, s.indexSubTables[0].locations):
+            g = glyphs[names.index(nm)]
+            if (a, b) != (off, off + 9 + len(g.bitmap)) or data[nm].imageData is not g.bitmap:
+                bad.append({"glyph": nm, "location": [a, b], "expected": [off, off + 9 + len(g.bitmap)]})
+            off = b
+    return {"target gids": gids, "problems": bad[:4]} if bad else None
+
+
+def job_copy_cbdt(jc):
+    from nanoemoji import glue_together as GT
+
+    jc.encode(GT._copy_cbdt, GT._cbdt_data_and_sizes)
+    n = jc.params["n"]
+    inp = {"n": n}
+    for i in range(n):
+        inp[f"tg{i}"] = core.SymNum(z3.Int(f"tg{i}"))
+    names = [f"glyph{i + 1:05d}" for i in range(n)]
+
+    def body():
+        donor, glyphs = _donor(n)
+        gids = [core.integer(f"tg{i}", 1, 60000) for i in range(n)]
+        core.assume(core.SymBool(z3.Distinct(*[g.t for g in gids])) if n > 1 else True)
+        target = TargetFont(names + ["zz"], dict(zip(names, gids)))
+        GT._copy_cbdt(target, donor)
+        return gids, glyphs, target
+
+    results = jc.explore(body, catch=(AssertionError, ValueError), max_paths=5000)
+    for r in results:
+        if not jc.no_exception(r, inp, replay_copy_cbdt, "C07:copy_cbdt:raises"):
+            continue
+        gids, glyphs, target = r.value
+        strikes = target["CBLC"].strikes
+        jc.reach(r, f"{len(strikes)} strikes")
+        conj = [z3.BoolVal(len({id(s.bitmapSizeTable) for s in strikes}) == len(strikes) and len({id(s.indexSubTables[0]) for s in strikes}) == len(strikes))]
+        flat = []
+        for si, (s, data) in enumerate(zip(strikes, target["CBDT"].strikeData)):
+            sub = s.indexSubTables[0]
+            conj.append(z3.BoolVal(len(sub.names) == len(sub.locations) and set(data) == set(sub.names)))
+            adv = [glyphs[names.index(nm)].bitmap.size[0] for nm in sub.names]
+            for k, (nm, loc) in enumerate(zip(sub.names, sub.locations)):
+                flat.append((si, k, nm, loc, data, len(sub.names)))
+        conj.append(z3.BoolVal(sorted(x[2] for x in flat) == sorted(names)))
+        off = BT.CBDT_HEADER_SIZE
+        for idx, (si, k, nm, loc, data, ln) in enumerate(flat):
+            i = names.index(nm)
+            want = 9 + len(glyphs[i].bitmap)
+            conj.append(z3.BoolVal((loc[0], loc[1]) == (off, off + want) and data[nm].imageData is glyphs[i].bitmap))
+            off += want
+            if idx + 1 < len(flat):
+                j = names.index(flat[idx + 1][2])
+                if flat[idx + 1][0] == si:
+                    conj.append(gids[j].t == gids[i].t + 1)
+                else:
+                    conj.append(gids[j].t > gids[i].t + 1)
+        jc.prove(r, z3.And(*conj), "_copy_cbdt: strikes = maximal runs of consecutive TARGET gids in gid order, own size/index tables, one bitmap per glyph, contiguous locations",
+                 inp, replay_copy_cbdt, key="C07:copy_cbdt:runs")
+    jc.expect_reached("1 strikes")
+    if n >= 2:
+        jc.expect_reached("2 strikes")
+
+
+def copy_jobs(tier):
+    return [Job(f"copy_cbdt[n={n}]", job_copy_cbdt, n=n) for n in ((1, 2, 3) if tier == "quick" else (1, 2, 3, 4))]
